@@ -12,6 +12,196 @@ import (
 // doMore extracts the non-CPU facts (memory copy/clear lists, config switch, loop counter widths, regex literals, ...).
 func doMore(repo, outDir string) {
 	doMemory(repo, outDir)
+	doMisc(repo, outDir)
+}
+
+var typeBits = map[string]int{"uint8": 8, "byte": 8, "uint16": 16, "uint32": 32, "uint64": 64, "uint": 64, "int": 63, "int32": 31, "int64": 63}
+
+// loopCounterBits: width of the counter of the first `for c := ...; c <= ...; c++` loop of a function
+func loopCounterBits(fd *ast.FuncDecl) (int, error) {
+	params := map[string]string{}
+	for _, f := range fd.Type.Params.List {
+		if id, ok := f.Type.(*ast.Ident); ok {
+			for _, n := range f.Names {
+				params[n.Name] = id.Name
+			}
+		}
+	}
+	bits := -1
+	var err error
+	ast.Inspect(fd.Body, func(n ast.Node) bool {
+		fs, ok := n.(*ast.ForStmt)
+		if !ok || bits >= 0 {
+			return true
+		}
+		cond, ok := fs.Cond.(*ast.BinaryExpr)
+		if !ok || cond.Op != token.LEQ {
+			return true
+		}
+		init, ok := fs.Init.(*ast.AssignStmt)
+		if !ok || len(init.Rhs) != 1 {
+			err = fmt.Errorf("%s: unexpected loop init", fd.Name.Name)
+			return false
+		}
+		switch v := init.Rhs[0].(type) {
+		case *ast.CallExpr:
+			if id, ok := v.Fun.(*ast.Ident); ok {
+				if b, ok := typeBits[id.Name]; ok {
+					bits = b
+					return false
+				}
+			}
+		case *ast.Ident:
+			if t, ok := params[v.Name]; ok {
+				if b, ok := typeBits[t]; ok {
+					bits = b
+					return false
+				}
+			}
+		}
+		err = fmt.Errorf("%s: cannot determine the type of the loop counter", fd.Name.Name)
+		return false
+	})
+	if bits < 0 && err == nil {
+		err = fmt.Errorf("%s: no `<=` loop found", fd.Name.Name)
+	}
+	return bits, err
+}
+
+// callOrder: is the first call of `first` textually before the first call of `second` in the function body
+func callBefore(fd *ast.FuncDecl, first, second string) (bool, error) {
+	p1, p2 := token.NoPos, token.NoPos
+	ast.Inspect(fd.Body, func(n ast.Node) bool {
+		if c, ok := n.(*ast.CallExpr); ok {
+			name := exprString(c.Fun)
+			if name == first && p1 == token.NoPos {
+				p1 = c.Pos()
+			}
+			if name == second && p2 == token.NoPos {
+				p2 = c.Pos()
+			}
+		}
+		return true
+	})
+	if p1 == token.NoPos || p2 == token.NoPos {
+		return false, fmt.Errorf("%s: calls %s / %s not both found", fd.Name.Name, first, second)
+	}
+	return p1 < p2, nil
+}
+
+func regexLiterals(fd *ast.FuncDecl) []string {
+	res := []string{}
+	ast.Inspect(fd.Body, func(n ast.Node) bool {
+		if c, ok := n.(*ast.CallExpr); ok && exprString(c.Fun) == "regexp.MustCompile" && len(c.Args) == 1 {
+			if bl, ok := c.Args[0].(*ast.BasicLit); ok {
+				res = append(res, strings.Trim(bl.Value, "`\""))
+			} else {
+				res = append(res, "<"+exprString(c.Args[0])+">")
+			}
+		}
+		return true
+	})
+	return res
+}
+
+func doMisc(repo, outDir string) {
+	var b strings.Builder
+	b.WriteString(header)
+	b.WriteString("namespace Verif.Generated\n\n")
+	ok := true
+	mem := funcs(parseDir(filepath.Join(repo, "memory")))
+	prof := funcs(parseDir(filepath.Join(repo, "profiler")))
+	cmds := funcs(parseDir(filepath.Join(repo, "commands")))
+	asm := funcs(parseDir(filepath.Join(repo, "assembler")))
+	b.WriteString("/-! width in bits of the counter of the address loops (declared type of the loop variable) -/\n")
+	for _, it := range []struct {
+		name string
+		fns  map[string]*ast.FuncDecl
+	}{{"Dump", mem}, {"DumpStatistics", prof}, {"CutOffAbsoluteValue", prof}, {"CutOffMedian", prof}} {
+		fd, found := it.fns[it.name]
+		if !found {
+			fail("loops", it.name+" not found")
+			ok = false
+			continue
+		}
+		bits, err := loopCounterBits(fd)
+		if err != nil {
+			fail("loops", err)
+			ok = false
+			continue
+		}
+		fmt.Fprintf(&b, "def loopBits_%s : Nat := %d\n", it.name, bits)
+	}
+	b.WriteString("\n/-! is the dump specification validated before the program is loaded and run -/\n")
+	for _, name := range []string{"RunCommand", "ProfileCommand"} {
+		fd, found := cmds[name]
+		if !found {
+			fail("dumporder", name+" not found")
+			ok = false
+			continue
+		}
+		before, err := callBefore(fd, "parseDumpParams", "LoadAndRunBinary")
+		if err != nil {
+			fail("dumporder", err)
+			ok = false
+			continue
+		}
+		fmt.Fprintf(&b, "def dumpValidatedFirst_%s : Bool := %v\n", name, before)
+	}
+	b.WriteString("\n/-! regular expression literals -/\n")
+	for _, it := range []struct {
+		name string
+		fns  map[string]*ast.FuncDecl
+	}{{"parseDumpParams", cmds}, {"parseOneLineAcme", asm}, {"parseOneLineTass", asm}} {
+		fd, found := it.fns[it.name]
+		if !found {
+			fail("regex", it.name+" not found")
+			ok = false
+			continue
+		}
+		fmt.Fprintf(&b, "def regex_%s : List String := %s\n", it.name, leanStrList(regexLiterals(fd)))
+	}
+	// does cpu.Load use the error returned by CopyToMem?  does ParseLabelFile consult the scanner error?
+	cpuFns := funcs(parseDir(filepath.Join(repo, "cpu")))
+	if fd, found := cpuFns["Load"]; found {
+		used := false
+		ast.Inspect(fd.Body, func(n ast.Node) bool {
+			if as, ok := n.(*ast.AssignStmt); ok && len(as.Rhs) == 1 {
+				if c, ok := as.Rhs[0].(*ast.CallExpr); ok && exprString(c.Fun) == "c.CopyToMem" {
+					used = true
+				}
+			}
+			if rs, ok := n.(*ast.ReturnStmt); ok {
+				for _, r := range rs.Results {
+					if c, ok := r.(*ast.CallExpr); ok && exprString(c.Fun) == "c.CopyToMem" {
+						used = true
+					}
+				}
+			}
+			return true
+		})
+		fmt.Fprintf(&b, "\n/-- cpu.Load assigns (and so can test) the error returned by CopyToMem -/\ndef loadChecksCopyError : Bool := %v\n", used)
+	} else {
+		fail("loader", "cpu.Load not found")
+		ok = false
+	}
+	if fd, found := asm["ParseLabelFile"]; found {
+		used := false
+		ast.Inspect(fd.Body, func(n ast.Node) bool {
+			if c, ok := n.(*ast.CallExpr); ok && strings.HasSuffix(exprString(c.Fun), ".Err") {
+				used = true
+			}
+			return true
+		})
+		fmt.Fprintf(&b, "\n/-- assembler.ParseLabelFile consults the scanner's error after the loop -/\ndef labelFileChecksScannerError : Bool := %v\n", used)
+	} else {
+		fail("labels", "ParseLabelFile not found")
+		ok = false
+	}
+	b.WriteString("\nend Verif.Generated\n")
+	if ok {
+		writeIfChanged(filepath.Join(outDir, "Misc.lean"), b.String())
+	}
 }
 
 func recvType(fd *ast.FuncDecl) string {
